@@ -127,15 +127,16 @@ pub fn segment(rng: &mut Rng, class: u64, len: usize, so_far: &[u8]) -> Vec<u8> 
             };
             let b = a.wrapping_add(1 + rng.below(200) as u8);
             let mut v: Vec<u8> = Vec::with_capacity(len + 600);
-            // the first 300 bytes decide what the mirror area of the ring holds
-            let head = rng.range(1, 300);
+            // the first 300 bytes decide what the mirror area of the ring holds (byte 256 is the last mirrored one)
+            let head = if rng.chance(3, 5) { rng.range(257, 300) } else { rng.range(1, 300) };
             for i in 0..head.min(len) {
                 v.push(if rng.chance(1, 3) || i == 256 { a } else { b });
             }
             while v.len() < len {
                 let base = so_far.len() + v.len();
                 let next_wrap = (base / 32768 + 1) * 32768;
-                let delta = rng.range(0, 263) as i64 - 3;
+                // run ends biased to the slots around the end of the mirrored area (ring start + 256 / 257 / 258)
+                let delta = if rng.chance(1, 2) { rng.pick(&[256i64, 256, 257, 258, 255, 0, 1, -1, 2, 259]) } else { rng.range(0, 263) as i64 - 3 };
                 let end = (next_wrap as i64 + delta) as usize; // exclusive end of the run
                 let mut run = if rng.chance(2, 3) { 258 * rng.range(1, 4) } else { rng.range(3, 900) };
                 if end < base + run {
